@@ -74,11 +74,12 @@ def _walk_own(node):
         stack.extend(ast.iter_child_nodes(n))
 
 
-def _eligible(fn: ast.FunctionDef, anchored) -> bool:
-    if not fn.name.startswith("_") or (fn.name.startswith("__") and fn.name.endswith("__")):
-        return False
-    if fn.name in anchored:
-        return False
+def _eligible(fn: ast.FunctionDef, anchored, local=False) -> bool:
+    if not local:
+        if not fn.name.startswith("_") or (fn.name.startswith("__") and fn.name.endswith("__")):
+            return False
+        if fn.name in anchored:
+            return False
     if fn.decorator_list:
         return False
     a = fn.args
@@ -101,10 +102,12 @@ def _eligible(fn: ast.FunctionDef, anchored) -> bool:
     return 0 < n_stmts <= MAX_BODY_STMTS
 
 
-def _eligible_generator(fn: ast.FunctionDef, anchored):
+def _eligible_generator(fn: ast.FunctionDef, anchored, local=False):
     """A private generator whose yields sit directly in one loop that ends the body (or at top level), without
     try / with around them: `for x in self._gen(..): BODY` is then that loop with `x = <yielded>; BODY` in place of the yield."""
-    if not fn.name.startswith("_") or (fn.name.startswith("__") and fn.name.endswith("__")) or fn.name in anchored or fn.decorator_list:
+    if fn.decorator_list:
+        return None
+    if not local and (not fn.name.startswith("_") or (fn.name.startswith("__") and fn.name.endswith("__")) or fn.name in anchored):
         return None
     a = fn.args
     if a.vararg or a.kwarg or a.kwonlyargs:
@@ -213,6 +216,7 @@ class _Inliner:
                 self.class_funcs[n.name] = {m.name: m for m in n.body if isinstance(m, ast.FunctionDef)}
                 self.class_bases[n.name] = [b.id for b in n.bases if isinstance(b, ast.Name)]
         self.done = 0
+        self.local_funcs = {}
 
     # -- resolution ------------------------------------------------------------------------
     def _lookup_method(self, cls, name, seen=()):
@@ -234,6 +238,9 @@ class _Inliner:
         f = call.func
         if any(isinstance(a, ast.Starred) for a in call.args) or any(k.arg is None for k in call.keywords):
             return None
+        if isinstance(f, ast.Name) and f.id in self.local_funcs:
+            fn = self.local_funcs[f.id]
+            return (fn, None) if _eligible(fn, self.anchored, local=True) else None
         if isinstance(f, ast.Name) and f.id in self.mod_funcs:
             fn = self.mod_funcs[f.id]
             return (fn, None) if _eligible(fn, self.anchored) else None
@@ -243,19 +250,53 @@ class _Inliner:
                 return (fn, f.value)
         return None
 
+    def _scan_locals(self, owner):
+        """Closures defined (once) inside `owner` and never re-bound: name -> FunctionDef."""
+        self.local_funcs = {}
+        defs = {}
+        for n in _walk_own_deep(owner):
+            if isinstance(n, ast.FunctionDef) and n is not owner:
+                defs.setdefault(n.name, []).append(n)
+        stores = {}
+        for n in ast.walk(owner):
+            if isinstance(n, ast.Name) and isinstance(n.ctx, ast.Store):
+                stores[n.id] = stores.get(n.id, 0) + 1
+        for nm, ds in defs.items():
+            if len(ds) == 1 and not stores.get(nm):
+                self.local_funcs[nm] = ds[0]
+
+    def _drop_unused_locals(self, owner):
+        """Remove closures that are no longer referenced (every call was inlined)."""
+        for nm, fn in list(self.local_funcs.items()):
+            used = any(isinstance(n, ast.Name) and n.id == nm and isinstance(n.ctx, ast.Load) for n in ast.walk(owner) if n is not fn and not _inside(n, fn))
+            if used:
+                continue
+            for holder in ast.walk(owner):
+                for fld in ("body", "orelse", "finalbody"):
+                    blk = getattr(holder, fld, None)
+                    if isinstance(blk, list) and fn in blk:
+                        blk.remove(fn)
+                        if not blk:
+                            blk.append(ast.copy_location(ast.Pass(), fn))
+
     # -- rewriting -------------------------------------------------------------------------
     def run(self):
         for _ in range(MAX_PASSES):
             before = self.done
             for n in self.tree.body:
                 if isinstance(n, ast.FunctionDef):
+                    self._scan_locals(n)
                     n.body = self._block(n.body, None, None, n)
+                    self._drop_unused_locals(n)
                 elif isinstance(n, ast.ClassDef):
                     for m in n.body:
                         if isinstance(m, ast.FunctionDef):
                             sn = m.args.args[0].arg if m.args.args and not any(
                                 isinstance(d, ast.Name) and d.id == "staticmethod" for d in m.decorator_list) else None
+                            self._scan_locals(m)
                             m.body = self._block(m.body, n.name, sn, m)
+                            self._drop_unused_locals(m)
+            self.local_funcs = {}
             if self.done == before:
                 break
         return self.done
@@ -309,6 +350,29 @@ class _Inliner:
 
     def _expr(self, e, cls, selfname, owner, pre):
         """Replace eligible helper calls in strictly-evaluated positions of expression e; append hoisted statements to pre."""
+        if isinstance(e, ast.Call) and len(e.args) == 1 and not e.keywords and isinstance(e.args[0], ast.Call) and self._is_gen_call(e.args[0], cls, selfname, owner):
+            f = e.func
+            consumer = (isinstance(f, ast.Name) and f.id in ("list", "tuple", "dict", "set", "sorted", "sum", "any", "all", "max", "min")) or \
+                (isinstance(f, ast.Attribute) and f.attr in ("join", "extend", "update"))
+            if consumer:
+                # consumer(gen(..)): collect what the generator yields in a list first (same order, same laziness towards the
+                # outside: the consumer would have drained it anyway), then the for loop over the generator is inlined
+                self.counter += 1
+                tag = f"{_PREFIX}{self.counter}_"
+                acc, item = tag + "acc", tag + "item"
+                init = _assign(acc, ast.List(elts=[], ctx=ast.Load()), e)
+                app = ast.Expr(value=ast.Call(func=ast.Attribute(value=ast.Name(id=acc, ctx=ast.Load()), attr="append", ctx=ast.Load()),
+                                              args=[ast.Name(id=item, ctx=ast.Load())], keywords=[]))
+                loop = ast.For(target=ast.Name(id=item, ctx=ast.Store()), iter=e.args[0], body=[app], orelse=[])
+                for s_ in (init, loop):
+                    ast.copy_location(s_, e)
+                    ast.fix_missing_locations(s_)
+                pre.append(init)
+                pre.extend(self._stmt(loop, cls, selfname, owner))
+                e.args = [ast.copy_location(ast.Name(id=acc, ctx=ast.Load()), e)]
+                if isinstance(f, ast.Attribute):
+                    f.value = self._expr(f.value, cls, selfname, owner, pre)
+                return e
         if isinstance(e, ast.Call):
             # arguments first (left to right)
             if isinstance(e.func, ast.Attribute):
@@ -385,14 +449,18 @@ class _Inliner:
         fn, receiver = None, None
         if any(isinstance(a, ast.Starred) for a in call.args) or any(k.arg is None for k in call.keywords):
             return None
-        if isinstance(f, ast.Name) and f.id in self.mod_funcs:
+        is_local = False
+        if isinstance(f, ast.Name) and f.id in self.local_funcs:
+            fn = self.local_funcs[f.id]
+            is_local = True
+        elif isinstance(f, ast.Name) and f.id in self.mod_funcs:
             fn = self.mod_funcs[f.id]
         elif isinstance(f, ast.Attribute) and isinstance(f.value, ast.Name) and selfname is not None and f.value.id == selfname and cls is not None:
             fn = self._lookup_method(cls, f.attr)
             receiver = f.value
         if fn is None or fn is owner:
             return None
-        shape = _eligible_generator(fn, self.anchored)
+        shape = _eligible_generator(fn, self.anchored, local=is_local)
         if shape is None:
             return None
         params = [a.arg for a in fn.args.posonlyargs + fn.args.args]
@@ -475,6 +543,17 @@ class _Inliner:
         self.done += 1
         # helper calls inside the placed consumer body / generator body are handled by the next pass
         return res
+
+    def _is_gen_call(self, call, cls, selfname, owner) -> bool:
+        f = call.func
+        fn, local = None, False
+        if isinstance(f, ast.Name) and f.id in self.local_funcs:
+            fn, local = self.local_funcs[f.id], True
+        elif isinstance(f, ast.Name) and f.id in self.mod_funcs:
+            fn = self.mod_funcs[f.id]
+        elif isinstance(f, ast.Attribute) and isinstance(f.value, ast.Name) and selfname is not None and f.value.id == selfname and cls is not None:
+            fn = self._lookup_method(cls, f.attr)
+        return fn is not None and fn is not owner and _eligible_generator(fn, self.anchored, local=local) is not None
 
     def _has_target(self, e, cls, selfname, owner) -> bool:
         for x in _walk_own(e):
@@ -779,3 +858,18 @@ def strip_logging(tree: ast.Module) -> int:
                         kept = [ast.copy_location(ast.Pass(), blk[0])]
                     setattr(node, fld, kept)
     return n
+
+
+def _walk_own_deep(fn):
+    """All nodes of a function including the headers of nested functions (but not their bodies' nested scopes twice)."""
+    stack = list(fn.body)
+    while stack:
+        n = stack.pop()
+        yield n
+        if isinstance(n, (ast.FunctionDef, ast.AsyncFunctionDef, ast.ClassDef, ast.Lambda)):
+            continue
+        stack.extend(ast.iter_child_nodes(n))
+
+
+def _inside(node, fn) -> bool:
+    return any(x is node for x in ast.walk(fn))
